@@ -179,6 +179,10 @@ type ProcCase struct {
 	CancelAt int      `json:"cancelAt,omitempty"` // cancel when this many traces were observed (0 = never)
 	NoAnswer map[string]bool `json:"noAnswer,omitempty"`
 	Shutdown bool     `json:"shutdown,omitempty"` // cancel at the end and observe the shutdown
+	StartMode int     `json:"startMode,omitempty"` // 0 StartAll, 1 StartWith one after the other, 2 StartWith from concurrent goroutines
+	StartOnly []string `json:"startOnly,omitempty"` // with StartMode 1/2: the start events to fire (in this order); empty = all
+	Waiters  []WaiterPlan `json:"waiters,omitempty"` // empty = one plain waiter
+	AnsDelayMs int    `json:"ansDelayMs,omitempty"` // fake time the answerer lets pass before each answer
 	Rounds   bool     `json:"rounds,omitempty"` // answer the r-th request of every activity before any (r+1)-th
 	Meta     map[string]int `json:"meta,omitempty"`
 	Objs     map[string]any `json:"objs,omitempty"` // initial data objects
@@ -186,6 +190,14 @@ type ProcCase struct {
 	env  *Env
 	defs *schema.Definitions
 	Err  string `json:"-"`
+}
+
+// WaiterPlan is one client calling WaitUntilComplete.
+type WaiterPlan struct {
+	TimeoutMs int  `json:"timeoutMs,omitempty"` // first attempt only; 0 = no deadline
+	Again     bool `json:"again,omitempty"`     // after an expired wait, wait again without deadline
+	DelayMs   int  `json:"delayMs,omitempty"`   // fake time before the first call
+	Repeat    int  `json:"repeat,omitempty"`    // additional calls after a successful one
 }
 
 // EvPlan delivers one event.
@@ -358,6 +370,13 @@ func (c *ProcCase) Main() {
 				L.Add("noanswer", r.act, "", r.seq)
 				continue
 			}
+			if c.AnsDelayMs > 0 {
+				select {
+				case <-time.After(time.Duration(c.AnsDelayMs) * time.Millisecond):
+				case <-stop:
+					return
+				}
+			}
 			answers[r.act]++
 			n := answers[r.act]
 			res := map[string]any{"r_" + r.act: fmt.Sprintf("%s#%d", r.act, n), "u_" + r.act: "undeclared"}
@@ -376,17 +395,108 @@ func (c *ProcCase) Main() {
 		_ = ep
 	}
 
-	L.Add("startall", "", "", 0)
-	if err := proc.StartAll(ctx); err != nil {
-		L.Add("fatal", "StartAll: "+err.Error(), "", 0)
+	startIDs := c.StartOnly
+	if len(startIDs) == 0 {
+		for _, n := range c.Prog.Defs.Procs[0].Nodes {
+			if n.Kind == "start" && len(n.Events) == 0 {
+				startIDs = append(startIDs, n.ID)
+			}
+		}
 	}
-	L.Add("startall-ret", "", "", 0)
+	firstStart := make(chan struct{})
+	var firstStartDone simlog.Cell
+	markStarted := func() {
+		if firstStartDone.Get() == 0 {
+			firstStartDone.Set(1)
+			close(firstStart)
+		}
+	}
+	startOne := func(id string) {
+		var el schema.FlowNodeInterface
+		for i := range *proc.Element().StartEvents() {
+			se := &(*proc.Element().StartEvents())[i]
+			if p, ok := se.Id(); ok && *p == id {
+				el = se
+			}
+		}
+		L.Add("startwith", id, "", 0)
+		if err := proc.StartWith(ctx, el); err != nil {
+			L.Add("fatal", "StartWith: "+err.Error(), "", 0)
+		}
+		L.Add("startwith-ret", id, "", 0)
+		markStarted()
+	}
+	switch c.StartMode {
+	case 0:
+		L.Add("startall", "", "", 0)
+		if err := proc.StartAll(ctx); err != nil {
+			L.Add("fatal", "StartAll: "+err.Error(), "", 0)
+		}
+		L.Add("startall-ret", "", "", 0)
+		markStarted()
+	case 1:
+		for _, id := range startIDs {
+			startOne(id)
+		}
+	case 2:
+		for _, id := range startIDs {
+			id := id
+			go startOne(id)
+		}
+	}
 
-	// waiter
-	go func() {
-		ok := proc.WaitUntilComplete(ctx)
-		L.Add("complete", fmt.Sprint(ok), "", 0)
-	}()
+	// waiters
+	waiters := c.Waiters
+	if len(waiters) == 0 {
+		waiters = []WaiterPlan{{}}
+	}
+	for wi, wp := range waiters {
+		wi, wp := wi, wp
+		go func() {
+			// clients wait only once a start call has returned
+			select {
+			case <-firstStart:
+			case <-ctx.Done():
+				return
+			}
+			if wp.DelayMs > 0 {
+				select {
+				case <-time.After(time.Duration(wp.DelayMs) * time.Millisecond):
+				case <-ctx.Done():
+				}
+			}
+			attempt := 0
+			okCount := 0
+			for {
+				wctx := ctx
+				var wcancel context.CancelFunc
+				timed := attempt == 0 && wp.TimeoutMs > 0
+				if timed {
+					wctx, wcancel = context.WithTimeout(ctx, time.Duration(wp.TimeoutMs)*time.Millisecond)
+				}
+				L.AddG(wi, "wait", "", "", attempt)
+				ok := proc.WaitUntilComplete(wctx)
+				expired := wctx.Err() != nil
+				if wcancel != nil {
+					wcancel()
+				}
+				L.AddG(wi, "complete", fmt.Sprint(ok), fmt.Sprint(expired), attempt)
+				attempt++
+				if ok {
+					okCount++
+					if okCount > wp.Repeat {
+						return
+					}
+					continue
+				}
+				if timed && wp.Again && ctx.Err() == nil {
+					env.fault("waiter-expired-then-waits-again")
+					continue
+				}
+				return
+			}
+		}()
+	}
 
 	// terminal quiescence: nothing happened during a whole watchdog period of fake time
 	for {
